@@ -364,6 +364,9 @@ def rule_loop(ctx):
                 slept = [a for f_, a in calls if f_ == "txaio.sleep"]
                 rejected = [a for f_, a in calls if f_ == "txaio.reject"]
                 name = f"can_reconnect={list(flags)}, cycle at {k}"
+                if r[0] == "raise":
+                    problems.append(f"{name}: transport_check ends with {r[1]}")
+                    continue
                 if not any(flags):
                     if not (len(rejected) == 1 and rejected[0][0] is env["self._done_f"] and not slept and cell == [0]):
                         problems.append(f"{name}: exhausted, but start() rejected {len(rejected)}x and {len(slept)} delay(s) armed")
